@@ -57,7 +57,7 @@ CHECKS = {
         note=ALG_NOTE, design="4/C10"),
     "C07": dict(
         level="model_checking",
-        technique="TLA+ model of the par_iter/map/collect/combine shape (ParMap) model-checked over all interleavings; bit-for-bit comparison of parallel vs serial answers under installed pools of every size; recorded schedules validated by TLC as ParMap behaviours",
+        technique="TLA+ model of the par_iter/map/collect/combine shape (ParMap) model-checked over all interleavings and, for any number of workers and items, proved with TLAPS (prefix-of-serial, barrier); bit-for-bit comparison of parallel vs serial answers under installed pools of every size; recorded schedules validated by TLC as ParMap behaviours",
         text="TLC explores every interleaving of k workers over n items and shows that the sequence of combine steps is always the serial one (and refutes the combine-on-finish variant). On the implementation, each of the five parallel functions is run repeatedly inside ThreadPool::install for pool sizes 2..16 on graphs with more than 20 nodes (tie-heavy, and with non-dyadic weights) and compared bit for bit with the pool-of-1 answer; 8 threads sharing one graph likewise; the hook trace of the executed schedule is replayed through ParMap's actions by the monitor.",
         note="Exhaustive for the model only: rayon's real schedules are sampled (pool sizes x repetitions), tied to the model by the hook traces. Trusted: bitwise comparison in the harness, TLC.",
         design="4/C07"),
